@@ -367,7 +367,17 @@ impl Prop for Symbols {
         let panicked = s.panicked();
         let stderr_tail = truncate_str(&s.stderr_text(), 600);
         let out = match (&resp, &panicked) {
-            (_, Some(p)) => Outcome::fail(h, format!("server-panic:{}", normalise_msg(p.split('|').nth(1).unwrap_or(p).trim())), format!("the language server panicked while analysing the document: {p}")),
+            (_, Some(p)) => {
+                // signature: innermost repository function in the server's backtrace + message (no line numbers)
+                let st = s.stderr_text();
+                let func = st
+                    .lines()
+                    .filter_map(|l| l.trim().split_once(": ").map(|(_, f)| f.trim()))
+                    .find(|f| f.starts_with("dora_") || f.starts_with("<dora_"))
+                    .unwrap_or("?")
+                    .to_string();
+                Outcome::fail(h, format!("server-panic@{}:{}", func, normalise_msg(p.split('|').nth(1).unwrap_or(p).trim())), format!("the language server panicked while analysing the document: {p}"))
+            }
             (Err(e), None) => Outcome::fail(h, "no-response:documentSymbol", format!("{e:?}; server stderr: {stderr_tail}")),
             (Ok(v), None) => {
                 if let Some(err) = v.get("error") {
